@@ -518,7 +518,8 @@ func c29Sequential(thorough bool) *explore.Scenario {
 			}
 			// working state before the Dial under test: 0 none, 1..n the i-th configured id, n+1 an id
 			// that is no longer configured
-			ws := x.Choose("working", len(list)+2)
+			// n+2..2n+1: the caller itself set the exported field, to a pointer to the (i-n-1)-th element of the list
+			ws := x.Choose("working", 2*len(list)+2)
 			nSub := 1 << len(list)
 			sub := x.Choose("accept", nSub)
 			orders := sortedOrders(c29Seeds[li])
@@ -577,6 +578,11 @@ func c29Sequential(thorough bool) *explore.Scenario {
 					r.Violate("C29|prefix|working-id-not-recorded", "%s: after a Dial that only %s can complete: conn=%v err=%v WorkingHelloID=%q", what, working, c != nil, err, workingName(roller))
 					return
 				}
+			case ws > len(list)+1:
+				roller = c29Roller(menu, list)
+				k := ws - len(list) - 2
+				working = menu[list[k]].name
+				roller.WorkingHelloID = &roller.HelloIDs[k]
 			default:
 				// an id outside the list: configure it, succeed with it, then reconfigure
 				var out rollerID
@@ -634,6 +640,14 @@ func c29Sequential(thorough bool) *explore.Scenario {
 					}
 					r.Violate("C29|follow-up-does-not-start-with-working-id", "%s: next Dial against an accept-all server tried %v (conn=%v err=%v), WorkingHelloID was %s", what, o, c2 != nil, err2, after)
 				}
+			}
+			// the configured list belongs to the caller: no Dial may change it
+			var now []string
+			for _, id := range roller.HelloIDs {
+				now = append(now, c29IDName(id))
+			}
+			if fmt.Sprint(now) != fmt.Sprint(cfg) {
+				r.Violate("C29|configured-list-changed", "%s: Roller.HelloIDs was %v and is now %v", what, cfg, now)
 			}
 			var o []string
 			for _, a := range att {
@@ -1066,7 +1080,7 @@ func init() {
 		Init:          func(verifDir string) { c29Trust(verifDir) },
 		RaceScenarios: func(thorough bool) []*explore.Scenario { return []*explore.Scenario{c29Concurrent(0, true)} },
 		Run: func(c *explore.Check, thorough bool) {
-			c.Rule = "real Roller; net.DialTimeout redirected to in-memory connections to a standard-library TLS server that recognises each fingerprint and accepts a chosen subset. (1) explicit-state: the Roller's only state is WorkingHelloID, so every state {none, each configured id, an id no longer configured} — reached through the public API by a prefix Dial — x id lists {3 ids two of which share the client name, 4 ids incl. a seeded randomized one, 3 ids two of which are randomized ids differing only in their seed} x every acceptance subset x every attempt order the shuffle can produce (quick: 6 of 24 for the 4-id list) x dial failure at every position is executed, followed by one more Dial from the reached state; unseeded randomized ids (3 kinds x 6 shuffle seeds x 3 second servers): after one of their fresh fingerprints worked, WorkingHelloID carries its seed and the next Dial leads with exactly that fingerprint; a list holding a pinned and the unseeded id of one client (12 shuffle seeds): both stay separate entries, each tried once; one fingerprint stalled (its server reads the ClientHello and then stays silent; deadlines and a virtual clock are modelled in the in-memory transport: the attempt ends at its deadline) x each id of each list x every acceptance subset x 4 shuffle seeds: the other ids are still tried, each with its own handshake timeout; (2) two concurrent Dials on one Roller under the controlled scheduler, all schedules with <= 1 (2) preemptions/free switches, x 4 acceptance sets x {no working id, one}. Oracle (reference Roller): first attempt is the working id if any, no id twice, only configured ids (plus the working one), stops at the first accepted attempt and returns that connection (complete, same id, SNI = server name on every attempt), records it; a dial error is returned at once; failure leaves WorkingHelloID alone and tries every id; concurrent: no deadlock/panic, each call explainable by the initial or the other call's working id, final WorkingHelloID is one of the successes. distinct = outcome class"
+			c.Rule = "real Roller; net.DialTimeout redirected to in-memory connections to a standard-library TLS server that recognises each fingerprint and accepts a chosen subset. (1) explicit-state: the Roller's only state is WorkingHelloID, so every state {none, each configured id, an id no longer configured} — reached through the public API by a prefix Dial, or (each configured id) set by the caller as a pointer into its own list — x id lists {3 ids two of which share the client name, 4 ids incl. a seeded randomized one, 3 ids two of which are randomized ids differing only in their seed} x every acceptance subset x every attempt order the shuffle can produce (quick: 6 of 24 for the 4-id list) x dial failure at every position is executed, followed by one more Dial from the reached state; unseeded randomized ids (3 kinds x 6 shuffle seeds x 3 second servers): after one of their fresh fingerprints worked, WorkingHelloID carries its seed and the next Dial leads with exactly that fingerprint; a list holding a pinned and the unseeded id of one client (12 shuffle seeds): both stay separate entries, each tried once; one fingerprint stalled (its server reads the ClientHello and then stays silent; deadlines and a virtual clock are modelled in the in-memory transport: the attempt ends at its deadline) x each id of each list x every acceptance subset x 4 shuffle seeds: the other ids are still tried, each with its own handshake timeout; (2) two concurrent Dials on one Roller under the controlled scheduler, all schedules with <= 1 (2) preemptions/free switches, x 4 acceptance sets x {no working id, one}. Oracle (reference Roller): first attempt is the working id if any, no id twice, only configured ids (plus the working one), stops at the first accepted attempt and returns that connection (complete, same id, SNI = server name on every attempt), records it; a dial error is returned at once; failure leaves WorkingHelloID alone and tries every id; Roller.HelloIDs is never changed; concurrent: no deadlock/panic, each call explainable by the initial or the other call's working id, final WorkingHelloID is one of the successes. distinct = outcome class"
 			c.Assumptions = []string{"shuffle decisions are driven by replacing the Roller's private prng with seeded ones (in-package helper); one seed per reachable attempt order", "fingerprints are recognised from the server's ClientHelloInfo (suites, extension set, groups, versions, ALPN; GREASE ignored); the menu's signatures are checked to be pairwise distinct", "trust via SSL_CERT_FILE and the real clock (certificate valid 2021-2036)"}
 			runAll(c, c29Scenarios(thorough), 0)
 			attachRacePass(c)
